@@ -129,6 +129,21 @@ BulkAddClauses(kind, a, b, o, r) ==
        \cup If(r.ok /\ b # AddAll(a, o.xs, o.cs, m)
                  /\ \A k \in 1..m : o.cs[k] \notin Range(a.chans) /\ \A j \in 1..(k - 1) : o.cs[j] # o.cs[k], "C15:bulk_add")
 
+\* sequential removal by index: some valid prefix was applied; success means all of it
+RECURSIVE RemSeq(_, _, _)
+RemSeq(inst, ks, n) ==
+  IF n = 0 THEN inst
+  ELSE LET p == RemSeq(inst, ks, n - 1) IN
+       IF ks[n] >= 0 /\ ks[n] < Len(p.items)
+       THEN [p EXCEPT !.items = RemoveAt(@, ks[n] + 1), !.chans = RemoveAt(@, ks[n] + 1)]
+       ELSE p
+RECURSIVE ValidPrefix(_, _, _)
+ValidPrefix(inst, ks, n) == n = 0 \/ (ValidPrefix(inst, ks, n - 1) /\ ks[n] >= 0 /\ ks[n] < Len(RemSeq(inst, ks, n - 1).items))
+BulkRemoveClauses(kind, a, b, o, r) ==
+  If(~\E n \in 0..Len(o.ks) : ValidPrefix(a, o.ks, n) /\ b = RemSeq(a, o.ks, n)
+                               /\ (r.ok => n = Len(o.ks))
+                               /\ (~r.ok => (n = Len(o.ks) \/ ~ValidPrefix(a, o.ks, n + 1))), "C15:bulk_remove")
+
 LookupClauses(kind, a, o, r) ==
   LET n == Len(a.items) IN
   CASE o.what = "len"  -> If(~r.ok \/ r.val # <<n>>, "C18:len")
@@ -175,7 +190,7 @@ Step(kind, w, o, w2, r) ==
           [] o.op = "remove"      -> RemoveClauses(kind, a, b, o, r)
           [] o.op = "assign"      -> AssignClauses(kind, a, b, o, r)
           [] o.op = "bulk_add"    -> BulkAddClauses(kind, a, b, o, r)
-          [] o.op = "bulk_remove" -> {}
+          [] o.op = "bulk_remove" -> BulkRemoveClauses(kind, a, b, o, r)
           [] o.op = "lookup"      -> LookupClauses(kind, a, o, r)
           [] o.op = "encode"      -> EncodeClauses(kind, a, r)
           [] o.op = "aux"         -> If(~r.ok \/ b # [a EXCEPT !.aux = @ + 1], "C20:aux_edit")
